@@ -980,5 +980,42 @@ theorem c05_shape_TreeNodeInstance_closeDispatch :
    ["defer{", "}", "msgDispatchQueueMutex.Lock", "close:msgDispatchQueueWait",
      "msgDispatchQueueMutex.Unlock", "n.ProtocolInstance", "pni.Shutdown"] := rfl
 
+theorem c05_shape_dispatch_BlockingDispatcher_Dispatch :
+    Shapes.network_dispatch_BlockingDispatcher_Dispatch =
+   ["d.Lock", "d.Unlock", "d.Unlock", "p.Process"] := rfl
+
+theorem c05_shape_dispatch_RoutineDispatcher_Dispatch :
+    Shapes.network_dispatch_RoutineDispatcher_Dispatch =
+   ["d.Lock", "defer:d.Unlock", "go{", "routinesMutex.Lock", "routinesMutex.Unlock", "p.Process",
+     "routinesMutex.Lock", "routinesMutex.Unlock", "}"] := rfl
+
+theorem c05_shape_serviceManager_Process :
+    Shapes.service_serviceManager_Process =
+   ["s.Dispatch"] := rfl
+
+theorem c05_shape_router_Router_handleConn :
+    Shapes.network_router_Router_handleConn =
+   ["defer{", "c.Close", "c.Rx", "c.Tx", "traffic.updateRx", "traffic.updateTx", "wg.Done",
+     "r.removeConnection", "verifC10Point", "}", "verifC10Point", "c.Remote", "c.Receive",
+     "verifC10Point", "r.Lock", "r.Unlock", "recv:paused", "r.Lock", "r.Unlock", "r.Closed",
+     "r.triggerConnectionErrorHandlers", "r.triggerConnectionErrorHandlers",
+     "r.triggerConnectionErrorHandlers", "verifC10Point", "msgTraffic.updateRx", "r.Dispatch"] := rfl
+
+theorem c05_shape_Overlay_Process :
+    Shapes.overlay_Overlay_Process =
+   ["MsgType.Equal", "o.handleConfigMessage", "protoIO.getByPacketType", "io.Unwrap",
+     "o.handleRequestTree", "o.handleSendTree", "o.handleSendTreeMarshal",
+     "o.handleRequestRoster", "o.handleSendRoster", "network.MessageType", "o.TransmitMsg"] := rfl
+
+theorem c05_shape_Overlay_TransmitMsg :
+    Shapes.overlay_Overlay_TransmitMsg =
+   ["treeStorage.getAndRefresh", "verifPoint:tm.miss", "o.requestTree", "verifPoint:tm.found",
+     "transmitMux.Lock", "defer:transmitMux.Unlock", "instancesLock.Lock", "To.ID", "To.ID",
+     "o.cleanTreeStorage", "instancesLock.Unlock", "o.TreeNodeFromTree",
+     "o.newTreeNodeInstanceFromToken", "treeStorage.Set", "To.ID", "o.getConfig",
+     "serviceManager.newProtocol", "instancesLock.Lock", "o.nodeDelete", "instancesLock.Unlock",
+     "go{", "defer{", "tni.Token", "ServiceFactory.Name", "}", "pi.Dispatch", "tni.Token",
+     "ServiceFactory.Name", "}", "o.RegisterProtocolInstance", "pi.ProcessProtocolMsg"] := rfl
+
 
 end C05
